@@ -104,6 +104,7 @@ func (ctx Ctx) coqTypeOfType(n ast.Node, t types.Type) coq.Type {
 			return coq.TypeIdent("disk.Disk")
 		}
 		if info, ok := ctx.getStructInfo(t); ok {
+			ctx.dep.addDep(info.name)
 			return coq.StructName(info.name)
 		}
 		return coq.TypeIdent(ctx.qualifiedName(t.Obj()))
